@@ -20,4 +20,33 @@ for c in cfg["cases"]:
     except Exception as ex:
         c.update({"unb": [], "bc": [], "ok": False, "error": repr(ex)})
     out["cases"].append(c)
+# ---- reductions: np.sum / np.mean over every kind of axis argument, and their derivative rules ----
+from autograd import make_vjp, make_jvp  # noqa: E402
+out["sums"] = []
+for c in cfg.get("sums", []):
+    sh = tuple(c["sh"])
+    ax = c["axis"]
+    ax_arg = None if ax is None else (tuple(ax) if isinstance(ax, list) else ax)
+    kd = c["keepdims"]
+    x = onp.array(c["x"], float).reshape(sh)
+    nd = len(sh)
+    norm = list(range(nd)) if ax is None else sorted({a % nd for a in (ax if isinstance(ax, list) else [ax])}) if nd else []
+    nred = 1
+    for a in norm:
+        nred *= sh[a]
+    try:
+        f = (lambda z: anp.sum(z, axis=ax_arg, keepdims=kd)) if c["fn"] == "sum" else (lambda z: anp.mean(z, axis=ax_arg, keepdims=kd))
+        scale = 1 if c["fn"] == "sum" else nred
+        y = onp.sum(x, axis=ax_arg, keepdims=kd)
+        g0 = onp.array(c["g"][:y.size], float).reshape(y.shape)
+        vjp, val = make_vjp(f)(x)
+        vj = onp.asarray(vjp(g0 * scale))
+        jv = onp.asarray(make_jvp(f)(x)(x * scale)[1])
+        ok = vj.shape == x.shape and float(onp.sum(g0 * y)) == float(onp.sum(vj * x)) and onp.shape(val) == y.shape \
+            and bool(onp.all(onp.asarray(val) * scale == y))
+        c.update({"axes": norm, "sum": [int(t) for t in y.ravel()], "vjp": [int(t) for t in vj.ravel()],
+                  "jvp": [int(t) for t in jv.ravel()], "g0": [int(t) for t in g0.ravel()], "ok": bool(ok)})
+    except Exception as ex:
+        c.update({"axes": norm, "sum": [], "vjp": [], "jvp": [], "g0": [], "ok": False, "error": repr(ex)})
+    out["sums"].append(c)
 print(json.dumps(out))
